@@ -103,7 +103,7 @@ fn next_down(x: f32) -> f32 {
 }
 
 fn axis_alphabet(tier: Tier) -> Vec<f32> {
-    let steps: i32 = if light() { 16 } else { tier.pick(40, 400) };
+    let steps: i32 = if light() { 16 } else { tier.pick(80, 400) };
     let mut v: Vec<f32> = (0..=steps).map(|i| (-0.5 + 2.0 * i as f64 / steps as f64) as f32).collect();
     for s in [0.0f32, 1.0, 0.5, 0.25, 0.75] {
         v.push(next_up(s));
@@ -209,7 +209,7 @@ pub fn run(tier: Tier) -> Report {
     }
     rep.bound = format!(
         "140 configs x [ full product of a {}-value axis alphabet on [-0.5,1.5] (step {}, f32 neighbours of 0, .25, .5, .75, 1, the interval ends, -0.0) = {} pixels; rounding-edge preimages of EVERY code of every plane at offsets 0, .5-1e-3, .5+1e-3 ({} pixels over all configs); 8 gamut corners + out-of-gamut extremes ]",
-        al, tier.pick("0.05", "0.005"), al * al * al, edge_total
+        al, tier.pick("0.025", "0.005"), al * al * al, edge_total
     );
     rep.rule = "each RGB pixel is encoded by the real Yuv::<T>::try_from((&Rgb, cfg)); the code read with Plane::p must be within 0.5 + 1e-6*2^n of the f64 H.273 quantisation of the actual f32 inputs; config, dims and plane sizes must be as requested".into();
     rep.assumptions = vec!["the continuous cube [-0.5,1.5]^3 is bounded by the stated lattice and the per-code rounding-edge preimages; pointwise behaviour per C11".into()];
